@@ -365,7 +365,9 @@ func ruleC14Status(cx *Ctx) {
 		allInstrs(maint, func(in ssa.Instruction) {
 			if isCASConst(in, ds, st.pToIdle, st.idle) {
 				ncas++
-				for _, i := range ifsOn(in.(ssa.Value)) {
+				// also when the outcome is first named (becameIdle := status == processingToIdle && CAS(...)): on the true
+				// edge of a test of that conjunction the CAS succeeded
+				for _, i := range ifsOnConj(in.(ssa.Value)) {
 					cut[edge{i.If.Block(), i.TrueIdx}] = true
 				}
 			}
@@ -395,9 +397,50 @@ func ruleC14Status(cx *Ctx) {
 		if f := popperReachedFrom(maint, tryPop, map[*ssa.Function]bool{}, 0); f != nil {
 			dwb = f
 		}
+		// "pop one task and run it" may be a loop-free step of its own that reports whether there was a task
+		// (runNextWriteTask() bool): the drain loop is then the function that calls the step, and the step's false
+		// result is the empty-queue edge
+		var popStep *ssa.Function
+		if !hasLoop(dwb) && dwb.Signature.Results().Len() == 1 && types.Identical(dwb.Signature.Results().At(0).Type(), types.Typ[types.Bool]) {
+			// false exactly on the nil edge of the pop
+			nilRet, other := 0, 0
+			for _, b := range dwb.Blocks {
+				ret, isRet := b.Instrs[len(b.Instrs)-1].(*ssa.Return)
+				if !isRet {
+					continue
+				}
+				k, isK := constBool(ret.Results[0])
+				onNil := false
+				for _, g := range guardsAt(b) {
+					if x, isEq, okN := nilCmp(g.Cond); okN && isEq == g.Truth {
+						if c, isC := x.(*ssa.Call); isC && isCallTo(c, tryPop) {
+							onNil = true
+						}
+					}
+				}
+				if isK && !k && onNil {
+					nilRet++
+				} else if isK && k && !onNil {
+					other++
+				} else {
+					nilRet = -100
+				}
+			}
+			if nilRet > 0 && other > 0 {
+				if f := popperReachedFrom(maint, dwb, map[*ssa.Function]bool{}, 0); f != nil {
+					popStep = dwb
+					dwb = f
+				}
+			}
+		}
 		name := funcName(dwb)
 		cut := map[edge]bool{}
 		allInstrs(dwb, func(in ssa.Instruction) {
+			if popStep != nil && isCallTo(in, popStep) {
+				for _, i := range ifsOn(in.(ssa.Value)) {
+					cut[edge{i.If.Block(), 1 - i.TrueIdx}] = true
+				}
+			}
 			if tryPop != nil && isCallTo(in, tryPop) {
 				for _, u := range usesOf(in.(ssa.Value)) {
 					if b, ok := u.(*ssa.BinOp); ok {
